@@ -15,12 +15,28 @@
     and well-formedness: `kindOK` (classes without mutable variant are immutable), `roots` (every name
     denotes a well-typed object graph whose flags are the ones the value level predicts), `defaults`
     (the shared default-argument objects are intact).
+
+  **What the refinement theorems do and do not say (audit F3).**  `Model.Heap` and `Spec.ValueSem`
+  deliberately share the following terms, so that a refinement statement is about *state* only:
+    `serVal` (= `Model.Wire.ser*`), `identOf` (GetHash = SHA-256d of the serialisation / of the header),
+    `txidOf` (GetTxid), `pyHashOf`/`pyHashBytes` (Python `hash()` as an opaque function of the bytes,
+    here the identity), `eqVals` (`__eq__`: class relation, reflected order), `validTx`/`validCtor`
+    (constructor range checks), `newBlockHdr`/`newBlockVal`/`merkleRoot` (the checks of
+    `CBlock.__init__`), `Field.apply` vs `applySc` (same field table), and — for the aliasing
+    catalogue — `Scalars`/`assemble`.
+  Consequently `refines_value_spec` (and `refines_alias_spec`, stated below as UNPROVED and tied by T2) can only rule out aliasing, caching and
+  mutability-class errors: "the heap, with its sharing, its cache slots and its two class variants,
+  always answers as if every object were recomputed from its current field values".  The *content* of
+  serialisation, identifiers and `==` is the business of C01/C02 (`Model.Wire`, `Model.Ident`), the
+  constructor checks of C16, the merkle root of C15; the digest of `RawSignatureHash` of C03.
+  The bridge to C02's class clause is `heap_ident_eq_value` below.
 -/
 import BtcVerif.Proofs.HeapAll
 import BtcVerif.Proofs.ValueFrame
+import BtcVerif.Proofs.HeapX8
 
 namespace BtcVerif.C09
-open BtcVerif BtcVerif.Model.Heap BtcVerif.Spec.ValueSem
+open BtcVerif BtcVerif.Model.Heap BtcVerif.Spec.ValueSem BtcVerif.Spec.AliasSem
 
 /-- the initial heap (only the shared default arguments) satisfies the invariant -/
 theorem inv_init : Inv Model.Heap.init := inv_init'
@@ -76,6 +92,62 @@ theorem no_shared_mutable {s : St} (hinv : Inv s) {r r' : Nat} {a b : Addr} {ta 
   rw [e1, e2] at h2
   have := hinv.sep x
   exact not_mem_of_cnt_zero hinv.immClosed hox hmx hb (by omega)
+
+/-- **bridge to C02** (audit, C02 §5): in a state satisfying the invariant, `GetHash()` of the object
+    at any address — instance of a mutable or of an immutable class, cache slot filled or empty —
+    returns the identifier of the value the object currently has -/
+theorem heap_ident_eq_value {s : St} (hinv : Inv s) {a : Addr} {v : Val} (h : absVal s.heap a = some v) :
+    ∃ h', getHashAt s.heap a = some (h', identOf v) := by
+  have ho : ∃ o : Obj, s.heap[a]? = some o := by
+    simp only [absVal] at h
+    cases hu : unfoldA D s.heap a with
+    | none => simp [hu] at h
+    | some t =>
+      rw [D_eq] at hu
+      obtain ⟨o, _, ho, _, _⟩ := unfoldA_succ hu
+      exact ⟨o, ho⟩
+  obtain ⟨o, ho⟩ := ho
+  simp only [getHashAt, ho, h, Option.bind_eq_bind, Option.bind_some]
+  by_cases hm : o.isMut = true
+  · exact ⟨s.heap, by simp [hm]⟩
+  · have hm' : o.isMut = false := by simpa using hm
+    simp only [hm', Bool.false_eq_true, if_false]
+    cases hc : o.cHash with
+    | some c =>
+      obtain ⟨v', hv', hi⟩ := (hinv.cacheOK a o ho hm').1 c hc
+      rw [h] at hv'; cases hv'
+      exact ⟨s.heap, by simp [hi]⟩
+    | none =>
+      cases hid : identOf v with
+      | ok c => exact ⟨_, rfl⟩
+      | error e => exact ⟨_, rfl⟩
+
+/-- the same for Python `hash()` -/
+theorem heap_pyhash_eq_value {s : St} (hinv : Inv s) {a : Addr} {v : Val} (h : absVal s.heap a = some v) :
+    ∃ h', pyHashAt s.heap a = some (h', pyHashOf v) := by
+  have ho : ∃ o : Obj, s.heap[a]? = some o := by
+    simp only [absVal] at h
+    cases hu : unfoldA D s.heap a with
+    | none => simp [hu] at h
+    | some t =>
+      rw [D_eq] at hu
+      obtain ⟨o, _, ho, _, _⟩ := unfoldA_succ hu
+      exact ⟨o, ho⟩
+  obtain ⟨o, ho⟩ := ho
+  simp only [pyHashAt, ho, h, Option.bind_eq_bind, Option.bind_some]
+  by_cases hm : o.isMut = true
+  · exact ⟨s.heap, by simp [hm]⟩
+  · have hm' : o.isMut = false := by simpa using hm
+    simp only [hm', Bool.false_eq_true, if_false]
+    cases hc : o.cPy with
+    | some c =>
+      obtain ⟨v', hv', hi⟩ := (hinv.cacheOK a o ho hm').2 c hc
+      rw [h] at hv'; cases hv'
+      exact ⟨s.heap, by simp [hi]⟩
+    | none =>
+      cases hid : pyHashOf v with
+      | ok c => exact ⟨_, rfl⟩
+      | error e => exact ⟨_, rfl⟩
 
 /-- assigning an attribute of an instance of an immutable class raises `AttributeError` and
     changes nothing -/
@@ -197,6 +269,172 @@ theorem copy_unaffected (pre post : List Op) {r : Nat} {e : Entry}
     Val.getM, hs]
   simp
 
+/-! ### the extended catalogue: arguments may be REFERENCES to existing objects (audit F4)
+
+  `Spec.AliasSem.OpX` adds to the catalogue `obj.attr = <existing object>`, `lst.append(<existing object>)`,
+  `lst[i] = <existing object>`, `CMutableTransaction(<existing vin>, <existing vout>, …)`,
+  `CMutableTxIn(<existing outpoint>, …)` and the `witness=None` constructor path (an immutable
+  `CTxWitness` over a Python list).  After such steps objects legitimately share state, so separation
+  is no longer a state invariant.  `InvX` (Proofs/HeapX1.lean) keeps what stays true of every reachable
+  heap: (i') closure of immutability (modulo that list, which no operation writes), (ii) correctness of
+  every filled cache, classes, one-step typing of references, the shared default objects.
+  Clause (iii) is restated as in DESIGN §6 — a property of the copy operations: `copy_fresh_ext`. -/
+
+theorem inv_init_ext : InvX Model.Heap.init.heap := invx_init
+
+/-- every operation of the extended catalogue preserves the invariant -/
+theorem inv_step_ext {s : St} (hinv : InvX s.heap) (op : OpX) : InvX (Model.HeapX.stepX s op).1.heap :=
+  invx_step hinv op
+
+theorem inv_reachable_ext (ops : List OpX) : InvX (Model.HeapX.runX Model.Heap.init ops).1.heap :=
+  invx_run ops invx_init
+
+/-- (ii) under arbitrary user-made aliasing: a filled cache slot of an immutable object (outpoint,
+    input, output, witness, transaction, header, block) equals the identifier recomputed from the
+    object's current serialisation -/
+theorem cache_correct_ext {h : Heap} (hinv : InvX h) {a : Addr} {o : Obj} (ho : h[a]? = some o)
+    (hm : o.isMut = false) :
+    (∀ c, o.cHash = some c → ∃ v, absVal h a = some v ∧ identOf v = .ok c) ∧
+    (∀ c, o.cPy = some c → ∃ v, absVal h a = some v ∧ pyHashOf v = .ok c) :=
+  hinv.cacheOK a o ho hm
+
+/-- (i') everything reachable from an immutable object is immutable — or the Python list behind a
+    default `CTxWitness`, whose items are immutable and which no operation of the catalogue writes -/
+theorem immutable_reach_ext {h : Heap} (hinv : InvX h) {f : Nat} {a : Addr} {t : ATree} {o : Obj}
+    (hu : unfoldA f h a = some t) (ho : h[a]? = some o) (hm : o.isMut = false) :
+    ∀ x ∈ addrs t, ∃ ox : Obj, h[x]? = some ox ∧ (ox.isMut = false ∨ ox.sc.kind = 10) :=
+  imm_reachX hinv.immClosed hinv.kindOK hinv.typed hu (fun o' ho' => by rw [ho] at ho'; cases ho'; exact Or.inl hm)
+
+/-- **(iii) as in DESIGN §6**: no mutable object is reachable from two roots where one was created by
+    a copy operation from the other.  After `CMutableX.from_x(src)` every writable object reachable
+    from the copy was allocated by the copy operation (address beyond the old heap), and the old heap
+    is untouched — whatever sharing the caller had set up before.  (For `CX.from_x`, the immutable
+    snapshot, `immutable_reach_ext` says that nothing writable is reachable at all.) -/
+theorem copy_fresh_ext {h : Heap} (hinv : InvX h) {a : Addr} {ta : ATree} {p : Plan}
+    (hu : unfoldA D h a = some ta) (hp : planClone true D h a = some p) :
+    InvX (allocPlan h p).1 ∧ (∃ e, (allocPlan h p).1 = h ++ e) ∧
+    ∃ t', unfoldA D (allocPlan h p).1 (allocPlan h p).2 = some t' ∧
+      ∀ (x : Addr) (ox : Obj), x ∈ addrs t' → (allocPlan h p).1[x]? = some ox → ox.isMut = true →
+        ox.sc.kind ≠ 10 → h.length ≤ x :=
+  copy_fresh hinv hu hp
+
+/-- `RawSignatureHash` under arbitrary aliasing: every existing object is left exactly as it was -/
+theorem sighash_preserves_heap_ext {s : St} (hinv : InvX s.heap) (r : Nat) (sub : Bytes) (i ht : Nat) :
+    ∃ e, (Model.HeapX.stepX s (.base (.sighash r sub i ht))).1.heap = s.heap ++ e := by
+  show ∃ e, (Model.Heap.step s (.sighash r sub i ht)).1.heap = s.heap ++ e
+  simp only [Model.Heap.step]
+  (repeat' split) <;> first
+    | (rename_i hr; exact (rawSigHash_ext hinv hr).2)
+    | exact ⟨[], (List.append_nil _).symm⟩
+
+/-- `VerifyScript` (any number of `RawSignatureHash` calls) under arbitrary aliasing -/
+theorem verify_preserves_heap_ext {s : St} (hinv : InvX s.heap) (r i : Nat) (calls : List (Bytes × Nat)) :
+    ∃ e, (Model.HeapX.stepX s (.base (.verify r i calls))).1.heap = s.heap ++ e := by
+  show ∃ e, (Model.Heap.step s (.verify r i calls)).1.heap = s.heap ++ e
+  simp only [Model.Heap.step]
+  (repeat' split) <;> first
+    | (rename_i hr; exact (rawSigHashes_ext hinv calls hinv ⟨[], by simp⟩ hr).2)
+    | exact ⟨[], (List.append_nil _).symm⟩
+
+/-- `GetHash()` at any address of a heap satisfying `InvX` — mutable or immutable class, cache filled
+    or not, shared or not — is the identifier of the object's current value -/
+theorem heap_ident_eq_value_ext {h : Heap} (hinv : InvX h) {a : Addr} {o : Obj} {v : Val}
+    (ho : h[a]? = some o) (hv : absVal h a = some v) : ∃ h', getHashAt h a = some (h', identOf v) := by
+  simp only [getHashAt, ho, hv, Option.bind_eq_bind, Option.bind_some]
+  by_cases hm : o.isMut = true
+  · exact ⟨h, by simp [hm]⟩
+  · have hm' : o.isMut = false := by simpa using hm
+    simp only [hm', Bool.false_eq_true, if_false]
+    cases hc : o.cHash with
+    | some c =>
+      obtain ⟨v', hv', hi⟩ := (hinv.cacheOK a o ho hm').1 c hc
+      rw [hv] at hv'; cases hv'
+      exact ⟨h, by simp [hi]⟩
+    | none =>
+      cases hid : identOf v with
+      | ok c => exact ⟨_, rfl⟩
+      | error e => exact ⟨_, rfl⟩
+
+/-- storing a reference into an attribute of an instance of an immutable class raises `AttributeError` -/
+theorem immutable_setref_rejected_ext (s : St) (t src : Target) (slot : Nat) {x y cur : Addr} {o : Obj}
+    (ht : s.target t = some x) (hs : s.target src = some y) (ho : s.heap[x]? = some o)
+    (hseq : o.sc.isSeq = false) (hcur : o.refs[slot]? = some cur)
+    (hk : Model.HeapX.kindAt s.heap cur = Model.HeapX.kindAt s.heap y) (hm : o.isMut = false) :
+    Model.HeapX.stepX s (.assignRef t slot src) = (s.skip, .err attributeError) := by
+  simp [Model.HeapX.stepX, ht, hs, ho, hseq, hcur, hk, hm]
+
+/-- **immutables never change** (extended catalogue, any aliasing): no operation changes the class,
+    the value slots or the references of an immutable object — only its cache slots may be filled -/
+theorem immutable_slots_stable_ext {s : St} (hinv : InvX s.heap) (op : OpX) {a : Addr} {o : Obj}
+    (ho : s.heap[a]? = some o) (hm : o.isMut = false) :
+    ∃ o' : Obj, (Model.HeapX.stepX s op).1.heap[a]? = some o' ∧ o'.isMut = false ∧ o'.sc = o.sc ∧ o'.refs = o.refs := by
+  obtain ⟨o', ho', e1, e2, e3⟩ := (trx_step hinv op).keep a o ho (Or.inl hm)
+  exact ⟨o', ho', by rw [e1, hm], e2, e3⟩
+
+/-- … hence **a snapshot is never affected**: the value (and so the serialisation, identifiers, hash,
+    equality) of an immutable object is the same after any operation — edits through any alias of the
+    object it was taken from, signature hashing, script verification, further copies … -/
+theorem immutable_value_stable_ext {s : St} (hinv : InvX s.heap) (op : OpX) {a : Addr} {o : Obj} {v : Val}
+    (ho : s.heap[a]? = some o) (hm : o.isMut = false) (hv : absVal s.heap a = some v) :
+    absVal (Model.HeapX.stepX s op).1.heap a = some v := by
+  simp only [absVal] at hv ⊢
+  cases hu : unfoldA D s.heap a with
+  | none => simp [hu] at hv
+  | some t =>
+    rw [unfoldA_keep hinv.immClosed hinv.kindOK hinv.typed (trx_step hinv op).keep hu
+      (fun o' ho' => by rw [ho] at ho'; cases ho'; exact Or.inl hm)]
+    simpa [hu] using hv
+
+/-- the same over any history -/
+theorem immutable_value_stable_run_ext {s : St} (hinv : InvX s.heap) (ops : List OpX) {a : Addr} {o : Obj} {v : Val}
+    (ho : s.heap[a]? = some o) (hm : o.isMut = false) (hv : absVal s.heap a = some v) :
+    absVal (Model.HeapX.runX s ops).1.heap a = some v := by
+  simp only [absVal] at hv ⊢
+  cases hu : unfoldA D s.heap a with
+  | none => simp [hu] at hv
+  | some t =>
+    rw [unfoldA_keep hinv.immClosed hinv.kindOK hinv.typed (trx_run ops hinv).keep hu
+      (fun o' ho' => by rw [ho] at ho'; cases ho'; exact Or.inl hm)]
+    simpa [hu] using hv
+
+/-- **identifiers reflect the current field values, shared ones included**: `GetHash()` on any target
+    returns the identifier of the value obtained by walking the object graph as it is now -/
+theorem getHash_reflects_value_ext {s : St} (hinv : InvX s.heap) (t : Target) {x : Addr} {o : Obj} {v : Val}
+    (ht : s.target t = some x) (ho : s.heap[x]? = some o) (hv : absVal s.heap x = some v) (hs : o.sc.isSeq = false) :
+    (Model.HeapX.stepX s (.base (.getHash t))).2 = .bytes (identOf v) := by
+  obtain ⟨h', hg⟩ := heap_ident_eq_value_ext hinv ho hv
+  show (Model.Heap.step s (.getHash t)).2 = _
+  simp [Model.Heap.step, observeAt, ht, ho, hv, hs, hg]
+
+/-- `serialize()` likewise (no cache is involved: this is the definition of the model) -/
+theorem ser_reflects_value_ext (s : St) (t : Target) {x : Addr} {o : Obj} {v : Val}
+    (ht : s.target t = some x) (ho : s.heap[x]? = some o) (hv : absVal s.heap x = some v) (hs : o.sc.isSeq = false) :
+    (Model.HeapX.stepX s (.base (.ser t))).2 = .bytes (serVal v) := by
+  show (Model.Heap.step s (.ser t)).2 = _
+  simp [Model.Heap.step, observeAt, ht, ho, hv, hs]
+
+-- UNPROVED (full statement): the heap model of the extended catalogue refines the store of cells with
+-- explicit aliasing (`Spec.AliasSem`), on every observable, for every history:
+--
+--   theorem refines_alias_spec (ops : List OpX) :
+--       (Model.HeapX.runX Model.Heap.init ops).2 = (Spec.AliasSem.runX Spec.AliasSem.init ops).2
+--
+-- together with its corollary `copy_unaffected_ext` (serialising a name after any later history that
+-- does not write a cell reachable from it yields the serialisation it had).  What is proved instead
+-- (`…_ext` above): the invariant `InvX` for every operation and history (`inv_step_ext`,
+-- `inv_reachable_ext`), hence correctness of every cache under arbitrary aliasing (`cache_correct_ext`,
+-- `heap_ident_eq_value_ext`, `getHash_reflects_value_ext`); immutability of every immutable object and
+-- stability of its value — snapshots are never affected — under every operation and history
+-- (`immutable_slots_stable_ext`, `immutable_value_stable_ext`, `immutable_value_stable_run_ext`);
+-- freshness of everything writable in a mutable copy at the time it is made (`copy_fresh_ext`);
+-- `RawSignatureHash`/`VerifyScript` leave every existing object as it is (`sighash_preserves_heap_ext`,
+-- `verify_preserves_heap_ext`).  Missing for the full statement: the simulation relation between
+-- addresses of mutable objects and cells (an injection extended by every allocation) and its
+-- preservation by the 32 operations; in particular that a mutable copy stays unaffected by LATER edits
+-- of other objects (it follows from `copy_fresh_ext` plus a frame argument per operation).  The
+-- statement is tied by T2 instead: `c09.xcheck` runs every generated history on `Model.HeapX` and on
+-- `Spec.AliasSem` and compares all observations (harness: every case of both tiers).
+
 /-! ### non-vacuity: concrete histories -/
 
 def tx0 : Tx :=
@@ -234,5 +472,18 @@ example :
     (∀ op ∈ [Op.assign ⟨0, [0, 0, 0]⟩ (.n 7), .appendOut 0 ⟨1, []⟩, .sighash 0 [0x51] 0 1],
       op.edits = some 1 → (⟨false, .tx tx0⟩ : Entry).isMut = false) :=
   ⟨rfl, fun _ _ _ => rfl⟩
+
+/-- aliasing through the extended catalogue: `tx1.vin = tx0.vin`, snapshot of `tx1`, edit through
+    `tx0`: the two mutable transactions change together, the snapshot does not; the default witness is
+    list-backed and its cached hash stays right after `tx.wit = …` -/
+example :
+    (Model.HeapX.runX Model.Heap.init
+      [.base (.newTx tx0), .newTxDefault tx0, .assignRef ⟨1, []⟩ 0 ⟨0, [0]⟩, .base (.snapshot ⟨1, []⟩),
+       .base (.eq ⟨0, []⟩ ⟨1, []⟩), .base (.assign ⟨0, [0, 0, 0]⟩ (.n 7)), .base (.eq ⟨0, []⟩ ⟨1, []⟩),
+       .base (.eq ⟨1, []⟩ ⟨3, []⟩), .base (.getHash ⟨1, [2]⟩), .base (.setWit 1 [[[1]]]),
+       .base (.eq ⟨1, [2]⟩ ⟨3, [2]⟩)]).2 =
+    [.created, .created, .done, .created, .bool (.ok true), .done, .bool (.ok true), .bool (.ok false),
+     .bytes (identOf (.wit [[]])), .done, .bool (.ok false)] := by
+  rfl
 
 end BtcVerif.C09
